@@ -158,6 +158,21 @@ def p_r_curve(trial: Any, sg: tuple) -> float:
     return _report_loop(trial, sg[0], [base + SHAPES[sh][s] / 64 for s in range(4)])
 
 
+def p_r_nan(trial: Any, sg: tuple) -> float:
+    """Like r_curve over six steps, but one report per trial is NaN (-NaN is NaN: the mirrored
+    run reports NaN at the same step); the step moves with the trial number."""
+    x = trial.suggest_int("x", 0, 7)
+    sh = trial.suggest_categorical("shape", tuple(SHAPES))
+    base = abs(x - 3) / 8 + trial.number / TN_DIV
+    ivs = [base + SHAPES[sh][s % 4] / 64 + (s // 4) / 256 for s in range(6)]
+    k = trial.number % 7  # every seventh trial reports no NaN at all
+    for s, v in enumerate(ivs):
+        trial.report(float("nan") if s == k else sg[0] * v, s)
+        if trial.should_prune():
+            raise optuna.TrialPruned()
+    return sg[0] * ivs[-1]
+
+
 def p_r_cond_fail(trial: Any, sg: tuple) -> float:
     arch = trial.suggest_categorical("arch", ("short", "long"))
     lr = trial.suggest_float("lr", 0.0, 1.0, step=0.125)
@@ -237,6 +252,7 @@ PROGS: dict[str, Prog] = {p.name: p for p in [
     Prog("r_curve", 1, p_r_curve, {"x": list(range(8)), "shape": list(SHAPES)}, True),
     Prog("r_cond_fail", 1, p_r_cond_fail, {"arch": ["short", "long"], "lr": _steps8(0.0, 9, 0.125), "d": [1, 2, 3, 4]}, True),
     Prog("r_float", 1, p_r_float, None, True),
+    Prog("r_nan", 1, p_r_nan, {"x": list(range(8)), "shape": list(SHAPES)}, True),
     Prog("m2", 2, p_m2, {"x": _steps8(0.0, 9, 0.125), "y": list(range(8))}, False),
     Prog("m2_cond_fail", 2, p_m2_cond_fail, {"kind": ["p", "q"], "a": list(range(8)), "b": _steps8(0.0, 9, 0.125), "c": [0, 1, 2]}, False),
     Prog("m3", 3, p_m3, {"i": list(range(8)), "j": list(range(8)), "c": ["u", "v"]}, False),
@@ -250,7 +266,7 @@ SAMPLERS = ["RandomSampler", "TPESampler", "TPESampler(mv,group,liar)", "TPESamp
             "QMCSampler", "BruteForceSampler", "GridSampler"]
 GP = "GPSampler"
 PRUNERS = ["NopPruner", "MedianPruner", "PercentilePruner", "SuccessiveHalvingPruner", "HyperbandPruner",
-           "PatientPruner", "ThresholdPruner", "WilcoxonPruner"]
+           "PatientPruner", "PatientPruner(bare)", "ThresholdPruner", "WilcoxonPruner"]
 TH_LOWER = 5 / 64 + 3 / TN_DIV
 TH_UPPER = 23 / 64 + 5 / TN_DIV
 
@@ -299,6 +315,8 @@ def make_pruner(name: str, mirror: bool) -> Any:
         return P.HyperbandPruner(min_resource=1, max_resource=4)
     if name == "PatientPruner":
         return P.PatientPruner(P.MedianPruner(n_startup_trials=2), patience=1)
+    if name == "PatientPruner(bare)":
+        return P.PatientPruner(None, patience=1)  # prunes whenever the patience is exhausted
     if name == "ThresholdPruner":
         if mirror:
             return P.ThresholdPruner(lower=-TH_UPPER, upper=-TH_LOWER)
@@ -358,7 +376,7 @@ def values_ok(tr: dict, n_obj: int) -> str | None:
             return f"objective {j}: tied final values"
         if not all(_dyadic(v) for v in vs):
             return f"objective {j}: non-dyadic value"
-    ivs = [v for t in tr["trials"] for _, v in t["iv"]]
+    ivs = [v for t in tr["trials"] for _, v in t["iv"] if v == v]  # NaN reports mirror to NaN: not a value
     if len(set(ivs)) != len(ivs):
         return "tied intermediate values"
     if not all(_dyadic(v) for v in ivs):
@@ -377,7 +395,7 @@ def compare(a: dict, b: dict, sg: tuple) -> tuple[str, Any, Any] | None:
             return "state-differs", i, (ta, tb)
         if [s for s, _ in ta["iv"]] != [s for s, _ in tb["iv"]]:
             return "pruning-step-differs", i, (ta, tb)
-        if any(vb != sg[0] * va for (_, va), (_, vb) in zip(ta["iv"], tb["iv"])):
+        if any(vb != sg[0] * va and not (va != va and vb != vb) for (_, va), (_, vb) in zip(ta["iv"], tb["iv"])):
             return "intermediate-values-not-mirrored", i, (ta, tb)
         if (ta["values"] is None) != (tb["values"] is None) or (
                 ta["values"] is not None and [s * v for s, v in zip(sg, ta["values"])] != tb["values"]):
@@ -556,7 +574,7 @@ def run(tier: str, replay: str | None = None) -> int:
     ]
     return ctx.finish(
         exhaustive=True,
-        rule="full product: 9 sampler configurations (Random, TPE plain / multivariate+group+constant_liar / gamma=n/2, NSGA-II, NSGA-III, QMC, BruteForce, Grid; +GPSampler thorough) x seeds {0,1} (thorough {0..3}) x 8 pruners x every "
+        rule="full product: 9 sampler configurations (Random, TPE plain / multivariate+group+constant_liar / gamma=n/2, NSGA-II, NSGA-III, QMC, BruteForce, Grid; +GPSampler thorough) x seeds {0,1} (thorough {0..3}) x 9 pruner configurations x every "
              "objective program (3 reporting programs per value-based pruner, all 8 single-objective programs for NopPruner, "
              "2 two-objective and 2 three-objective programs) x every base direction vector x every non-empty subset of "
              "flipped objectives, n_trials=10 (thorough also 24); states = (sampler, pruner, seed, program, base directions, "
